@@ -3,6 +3,7 @@ package codecs
 import (
 	"fmt"
 	"math/rand"
+	"strings"
 	"testing"
 )
 
@@ -232,7 +233,8 @@ func TestGenFrameExactSizes(t *testing.T) {
 
 func TestRegistry(t *testing.T) {
 	names := []string{
-		"h264", "h265", "av1", "vp8", "vp9", "mpeg4audio", "mpeg4audio-6-2", "fragmented", "mpeg1audio",
+		"h264", "h265", "av1", "vp8", "vp9", "mpeg4audio", "mpeg4audio-6-2", "mpeg4audio-13-3-0",
+		"mpeg4audio-6-2-4", "fragmented", "mpeg1audio",
 		"mpeg1video", "mjpeg", "ac3", "lpcm", "lpcm-24-1", "simpleaudio", "mpegts", "klv",
 	}
 	if len(All()) != len(names) {
@@ -253,7 +255,7 @@ func TestRegistry(t *testing.T) {
 // fragment by IsMorePacketsNeeded.
 func TestErrorClassification(t *testing.T) {
 	for _, c := range All() {
-		if !c.Stateful || c.Name == "mpeg4audio-6-2" {
+		if !c.Stateful || c.Name == "mpeg4audio-6-2" || c.Name == "mpeg4audio-6-2-4" {
 			continue
 		}
 		rng := rand.New(rand.NewSource(3))
@@ -284,7 +286,7 @@ func TestErrorClassification(t *testing.T) {
 			}
 		}
 		// rtpmpeg4audio and rtpfragmented cannot tell and take any packet as a start
-		if hasErr := c.Name != "mpeg4audio" && c.Name != "fragmented"; hasErr != (nonStarting > 0) {
+		if hasErr := !strings.HasPrefix(c.Name, "mpeg4audio") && c.Name != "fragmented"; hasErr != (nonStarting > 0) {
 			t.Errorf("%s: %d lone packets of %d classified as non-starting", c.Name, nonStarting, len(pkts)-1)
 		}
 	}
